@@ -195,7 +195,10 @@ def coqc(ctx: Ctx, vfile: Path, extra_q=(), timeout: int = 600, out: Path | None
     cmd.append(str(vfile))
     r = subprocess.run(cmd, capture_output=True, text=True, cwd=vfile.parent)
     ctx.coq_secs += time.time() - t
-    return r.returncode == 0, r.stdout, r.stderr
+    err = r.stderr
+    if r.returncode in (124, 137, 143) or r.returncode < 0:
+        err += f"\n[coqc exit status {r.returncode}: timed out after {timeout}s or killed - not a Coq error]"
+    return r.returncode == 0, r.stdout, err
 
 
 _THM = re.compile(r"^\s*(Theorem|Lemma|Example|Corollary|Fact)\s+([A-Za-z0-9_']+)", re.M)
@@ -416,6 +419,12 @@ def coq_eval_many(ctx: Ctx, files: dict[str, str], timeout: int = 600, par: int 
         futs = {n: ex.submit(coq_eval, ctx, n, t, timeout) for n, t in files.items()}
         for n, f in futs.items():
             res[n] = f.result()
+    # a case file that was killed or ran out of time on a loaded machine says nothing about the code under test:
+    # evaluate it once more, alone, with three times the time
+    for n, (ok, _evals, se) in list(res.items()):
+        if not ok and "not a Coq error]" in se:
+            res[n] = coq_eval(ctx, n, files[n], timeout * 3)
+            ctx.count("case_files_retried_after_timeout", 1) if hasattr(ctx, "count") else None
     return res
 
 
